@@ -199,6 +199,7 @@ type sim struct {
 	withheld []byte // captured, never delivered, older than the newest accepted
 	lastDlv  []byte // most recently delivered genuine application record
 	pOut     [][]byte
+	chalN    int
 	payN     int
 	curEvent string
 
@@ -792,6 +793,17 @@ func (s *sim) step(ev string) {
 			r.payload = []byte{rrcChal, 0xc1, 0xc2, 0xc3, 0xc4, 0xc5, 0xc6, 0xc7, 0xc8}
 		}); f != nil {
 			s.deliver(a, f, true)
+		}
+	case "chal": // the peer's own fresh path_challenge (newest sequence number) arriving from a: V answers it
+		// towards a, within what is left of a's amplification budget
+		if d := s.pWrite(); d != nil {
+			s.chalN++
+			if f := s.reseal(d, func(r *rec) {
+				r.typ = ctRRC
+				r.payload = []byte{rrcChal, 0xd1, 0xd2, 0xd3, 0xd4, 0xd5, 0xd6, 0xd7, byte(s.chalN)}
+			}); f != nil {
+				s.deliver(a, f, true)
+			}
 		}
 	case "flip": // genuine fresh record with one ciphertext bit flipped (right CID), original lost
 		if d := s.pWrite(); d != nil {
